@@ -210,6 +210,26 @@ fn main() {
     let timeout = Duration::from_secs((prop.timeout_s)(tier));
     let tmp = report::verif_dir().join("target").join("tmp");
     let _ = std::fs::create_dir_all(&tmp);
+    // Remove what killed runs left behind (private binaries, worker outputs, traces of processes that no longer exist).
+    if let Ok(rd) = std::fs::read_dir(&tmp) {
+        for ent in rd.flatten() {
+            let name = ent.file_name().to_string_lossy().to_string();
+            let pid: Option<u32> = if let Some(p) = name.strip_prefix("fv-") {
+                p.parse().ok()
+            } else if name.ends_with(".trace") || name.ends_with(".json") {
+                name.split('-').nth(1).and_then(|p| p.parse().ok())
+            } else if name.starts_with("c19-link-") {
+                name.split('-').nth(2).and_then(|p| p.parse().ok())
+            } else {
+                None
+            };
+            if let Some(pid) = pid {
+                if !std::path::Path::new(&format!("/proc/{}", pid)).exists() {
+                    let _ = if ent.path().is_dir() { std::fs::remove_dir_all(ent.path()) } else { std::fs::remove_file(ent.path()) };
+                }
+            }
+        }
+    }
     // Workers run from a private copy of the binary: a concurrent rebuild (another check started while a long
     // run is in progress) replaces target/release/fv and must not change or break the workers of this run.
     let exe = {
